@@ -288,3 +288,79 @@ Definition class_eqb (a b : option (string * Z)) : bool :=
 
 Definition single_id_or_wave (row : string * list Z * Z * Z) : bool :=
   let '(cls, _, lo, hi) := row in String.eqb cls "WaveformPacketVlr" || (lo =? hi).
+
+(* ------------------------------------------------------------------------------------ *)
+(* the file around the two lists: header (hs bytes), VLRs, points, EVLRs                   *)
+(* ------------------------------------------------------------------------------------ *)
+(* the header fields that locate the records (their byte encodings belong to the header codec, C01/C07):
+   number of VLRs, offset to point data, number of EVLRs, start of first EVLR *)
+Record locator := mkLoc { l_nvlr : Z; l_offset : Z; l_nevlr : Z; l_estart : Z }.
+
+(* LasHeader.partial_reset: the attributes it sets to 0 are listed in Gen/GenKnown.v (from the AST, on every run) *)
+Definition reset_field (name : string) (cur : Z) : Z :=
+  if existsb (String.eqb name) partial_reset_zeroes then 0 else cur.
+Definition partial_reset (l : locator) : locator :=
+  mkLoc (l_nvlr l) (l_offset l) (reset_field "number_of_evlrs" (l_nevlr l))
+        (reset_field "start_of_first_evlr" (l_estart l)).
+
+(* LasWriter(dest, header) ... close(), as LasData.write and laspy.open(mode="w") drive it.
+   stale = the locating fields of the header the caller passes in: whatever file, written or read at any earlier
+   time, that header comes from (deepcopy, then partial_reset). The VLR list is written right after the header;
+   write_points; write_evlrs is called or not (evl = None), refuses a file older than 1.4, and sets the two EVLR
+   fields only for a non-empty list; close rewrites the header. body = everything after the hs header bytes.
+   start_of_first_evlr / number_of_evlrs exist only in a 1.4 header. *)
+Definition write_file (hs : Z) (v14 : bool) (stale : locator) (vl : list vlr) (pts : list Z)
+    (evl : option (list vlr)) : result (locator * list Z) :=
+  do vb <- enc_vlrs false vl;
+  let h0 := partial_reset stale in
+  let h := mkLoc (len vl) (hs + len vb) (l_nevlr h0) (l_estart h0) in
+  do r <- match evl with
+          | None => Ok (h, vb ++ pts)
+          | Some el =>
+              if negb v14 then Err ELaspy
+              else match el with
+                   | [] => Ok (h, vb ++ pts)
+                   | _ :: _ => do eb <- enc_vlrs true el;
+                               Ok (mkLoc (l_nvlr h) (l_offset h) (len el) (hs + len vb + len pts), vb ++ pts ++ eb)
+                   end
+          end;
+  Ok (if v14 then fst r else mkLoc (l_nvlr (fst r)) (l_offset (fst r)) 0 0, snd r).
+
+(* LasHeader.read_from (+ read_evlrs on a seekable source): the VLRs follow the header; in a 1.4 file the EVLRs are
+   number_of_evlrs records at start_of_first_evlr, an empty list when the count is 0; older files have none *)
+Definition read_file (hs : Z) (v14 : bool) (loc : locator) (body : list Z)
+    : result (list kvlr * option (list kvlr)) :=
+  do r <- read_known false (Z.to_nat (l_nvlr loc)) body;
+  if v14 then
+    if 0 <? l_nevlr loc then
+      do e <- read_known true (Z.to_nat (l_nevlr loc)) (skipn (Z.to_nat (l_estart loc - hs)) body);
+      Ok (fst r, Some (fst e))
+    else Ok (fst r, Some [])
+  else Ok (fst r, None).
+
+(* writing what a user holds after reading (or after editing the lists he read) *)
+Definition write_file_known (hs : Z) (v14 : bool) (stale : locator) (kl : list kvlr) (pts : list Z)
+    (kel : option (list kvlr)) : result (locator * list Z) :=
+  do vl <- kv_records kl;
+  match kel with
+  | None => write_file hs v14 stale vl pts None
+  | Some l => if negb v14 then write_file hs v14 stale vl pts (Some [])
+              else do el <- kv_records l; write_file hs v14 stale vl pts (Some el)
+  end.
+
+Definition opt_list {A} (o : option (list A)) : list A := match o with Some l => l | None => [] end.
+
+(* the statements of LasWriter.__init__ / write_evlrs this model describes (compared with the source on every run) *)
+Definition modelled_writer_header_ops : list string :=
+  ["self.header = deepcopy(header)";
+   "self.header.vlrs.pop(header.vlrs.index('LasZipVlr'))";
+   "self.header.partial_reset()";
+   "dims.raise_if_version_not_compatible_with_fmt(header.point_format.id, str(self.header.version))";
+   "self.header.are_points_compressed = do_compress";
+   "self.point_writer.write_initial_header_and_vlrs(self.header, self.encoding_errors)"]%string.
+Definition modelled_write_evlrs_ops : list string :=
+  ["self.point_writer.done()";
+   "self.done = True";
+   "self.header.number_of_evlrs = len(evlrs)";
+   "self.header.start_of_first_evlr = self.dest.tell()";
+   "evlrs.write_to(self.dest, as_extended=True)"]%string.
